@@ -62,13 +62,9 @@ func (e *ThreadPoolExecutor) start() {
 	switch state {
 	case fatchoy.StateInit:
 		if e.state.CAS(fatchoy.StateInit, fatchoy.StateStarted) {
-			var ready = make(chan struct{}, e.nworker)
 			for i := 0; i < e.nworker; i++ {
 				e.wg.Add(1)
 				go e.worker(i + 1)
-			}
-			for i := 0; i < e.nworker; i++ {
-				<-ready
 			}
 			e.state.Set(fatchoy.StateRunning)
 		}
